@@ -430,6 +430,7 @@ fn supervise_sub(ctx: &Ctx, sub: &str, n: u64, agg: &Arc<Mutex<ParAgg>>) {
                             out.violation(format!("{prop}|process-died"), format!("{d} [{}]", sc.label), rp());
                         }
                         ScenarioEnd::Watchdog => out.inconclusive.push(format!("watchdog (120 s) fired in scenario {sub}#{idx} without a quiescent state")),
+                        ScenarioEnd::HarnessError(d) => out.inconclusive.push(format!("harness error in scenario {sub}#{idx}: {d}")),
                     }
                 });
             });
